@@ -1,5 +1,3 @@
-//go:build !vsreal
-
 // Package wl is the two-endpoint harness: a real drpcconn.Conn talking to a real
 // drpcserver.Server (ServeOne) over the model transport, plus the small toolbox
 // (handler programs, logs, census) shared by the conn-level checks.
